@@ -1,5 +1,5 @@
-(* C17 - executable interleaving model of AudioIO / AudioThread (audiolazy/lazy_io.py, as repaired by
-   47547f6) at synchronisation-point granularity.  NO proofs in this file.
+(* C17 - executable interleaving model of AudioIO / AudioThread (audiolazy/lazy_io.py, after the repairs
+   47547f6, 978c428, bdb2b32) at synchronisation-point granularity.  NO proofs in this file.
 
    Threads: tid 0 is the main thread running a control script (play / pause / resume / stop / close
    issued one after the other); tid (S i) is the i-th AudioThread created by AudioIO.play.
@@ -8,7 +8,8 @@
    (manager.halting, manager.lock, thread.lock), Event.set/clear/is_set/wait (thread.go), read/write
    of thread.halting, the four accesses to manager._threads ([0], append, remove, in), the backend
    calls (PyAudio.open, write_stream, stop_stream, start_stream, Stream.close, terminate, and the read
-   of PyAudio._streams by the assert in close), AudioThread.start and AudioThread.join.
+   of PyAudio._streams by the assert in close), AudioThread.start, AudioThread.join and
+   AudioThread.is_alive (read by play when it prunes manager._started).
    A blocking primitive that cannot proceed is a DISABLED transition (step returns None).
 
    What this model cannot exhibit (trusted-base notes of the property):
@@ -16,8 +17,8 @@
      GIL makes the flag and list accesses atomic, the model relies on it);
    - PortAudio's own callback threads, device timing, write_stream blocking or failing;
    - AudioIO.__del__ run by the garbage collector or at interpreter exit (it is close() on another
-     thread; the model has ONE control thread, so manager.finished is only touched by tid 0 and its
-     test-and-set is thread-local code);
+     thread; the model has ONE control thread, so manager.finished and manager._started are only touched by
+     tid 0 and their accesses are thread-local code);
    - unbounded audio: every played iterable is a finite list (with wait=True "finite audio" is a
      hypothesis of the property), exceptions raised by the iterable or by struct.pack;
    - recording (RecStream, manager._recordings is empty), the `api` constructor argument.
@@ -78,7 +79,8 @@ Record player := mkP {
   popen : bool              (* the device stream is open (member of PyAudio._streams) *)
 }.
 
-Inductive ctl := KPause | KResume | KStop | KCStop (* stop() called by close *).
+Inductive ctl := KPause | KResume | KStop
+  | KCResume (* thread.play() called by close when wait *) | KCStop (* thread.stop() called by close *).
 
 (* ---- main thread program counter *)
 Inductive mpc :=
@@ -88,12 +90,14 @@ Inductive mpc :=
 | MPlayHaltInit (p : nat)    (*     self.halting = False *)
 | MPlayOpen (p : nat)        (*     self.stream = pa.open(...) *)
 | MPlayAppend (p : nat)      (*   self._threads.append(new_thread) *)
-| MPlayStart (p : nat)       (*   new_thread.start() *)
+| MPlayPrune (p : nat) (todo kept : list nat)
+                             (*   self._started = [th for th in self._started if th.is_alive()] *)
+| MPlayStart (p : nat)       (*   [self._started.append(new_thread): local]  new_thread.start() *)
 | MPlayRel                   (*   release self.lock *)
 | MCtlAcq (k : ctl) (t : nat)   (* stop/pause/play: with self.lock: *)
 | MPauseClear (t : nat)         (*   self.go.clear() *)
-| MResumeSet (t : nat)          (*   self.go.set() *)
-| MStopHalt (c : bool) (t : nat)(*   self.halting = True      (c: called from close) *)
+| MResumeSet (c : bool) (t : nat)(*   self.go.set()            (c: called from close) *)
+| MStopHalt (c : bool) (t : nat)(*   self.halting = True *)
 | MStopSet (c : bool) (t : nat) (*   self.go.set() *)
 | MCtlRel (c : bool) (t : nat)  (*   release thread.lock *)
 | MCloseAcqH                 (* close: with self.halting:  [then finished test / set: local] *)
@@ -101,8 +105,9 @@ Inductive mpc :=
 | MCloseLoopAcq              (*   while True: with self.lock: *)
 | MCloseGet                  (*     thread = self._threads[0] / IndexError: break *)
 | MCloseBreakRel             (*     break: release self.lock *)
-| MCloseLoopRel (t : nat)    (*     release self.lock;  if not self.wait: thread.stop() *)
+| MCloseLoopRel (t : nat)    (*     release self.lock;  if self.wait: thread.play() else: thread.stop() *)
 | MCloseJoin (t : nat)       (*   thread.join() *)
+| MCloseJoinAll (todo : list nat) (* for thread in self._started: thread.join() *)
 | MCloseAssert               (*   assert not self._pa._streams *)
 | MCloseTerm                 (*   self._pa.terminate() *)
 | MCloseRelH                 (*   release self.halting (close returns) *)
@@ -120,6 +125,7 @@ Record state := mkS {
   shlock : option nat;      (* manager.halting (a Lock) : holder *)
   smlock : option nat;      (* manager.lock : holder *)
   sthreads : list nat;      (* manager._threads, as player indices *)
+  sstarted : list nat;      (* manager._started *)
   sterminated : nat;        (* number of PyAudio.terminate() calls *)
   splayers : list player;
   smpc : mpc;
@@ -128,15 +134,16 @@ Record state := mkS {
 }.
 
 (* ---- field updates *)
-Definition set_finished s v := mkS (swait s) v (shlock s) (smlock s) (sthreads s) (sterminated s) (splayers s) (smpc s) (sscript s) (strace s).
-Definition set_hlock s v := mkS (swait s) (sfinished s) v (smlock s) (sthreads s) (sterminated s) (splayers s) (smpc s) (sscript s) (strace s).
-Definition set_mlock s v := mkS (swait s) (sfinished s) (shlock s) v (sthreads s) (sterminated s) (splayers s) (smpc s) (sscript s) (strace s).
-Definition set_threads s v := mkS (swait s) (sfinished s) (shlock s) (smlock s) v (sterminated s) (splayers s) (smpc s) (sscript s) (strace s).
-Definition set_terminated s v := mkS (swait s) (sfinished s) (shlock s) (smlock s) (sthreads s) v (splayers s) (smpc s) (sscript s) (strace s).
-Definition set_players s v := mkS (swait s) (sfinished s) (shlock s) (smlock s) (sthreads s) (sterminated s) v (smpc s) (sscript s) (strace s).
-Definition set_mpc s v := mkS (swait s) (sfinished s) (shlock s) (smlock s) (sthreads s) (sterminated s) (splayers s) v (sscript s) (strace s).
-Definition set_script s v := mkS (swait s) (sfinished s) (shlock s) (smlock s) (sthreads s) (sterminated s) (splayers s) (smpc s) v (strace s).
-Definition emit s e := mkS (swait s) (sfinished s) (shlock s) (smlock s) (sthreads s) (sterminated s) (splayers s) (smpc s) (sscript s) (e :: strace s).
+Definition set_finished s v := mkS (swait s) v (shlock s) (smlock s) (sthreads s) (sstarted s) (sterminated s) (splayers s) (smpc s) (sscript s) (strace s).
+Definition set_hlock s v := mkS (swait s) (sfinished s) v (smlock s) (sthreads s) (sstarted s) (sterminated s) (splayers s) (smpc s) (sscript s) (strace s).
+Definition set_mlock s v := mkS (swait s) (sfinished s) (shlock s) v (sthreads s) (sstarted s) (sterminated s) (splayers s) (smpc s) (sscript s) (strace s).
+Definition set_threads s v := mkS (swait s) (sfinished s) (shlock s) (smlock s) v (sstarted s) (sterminated s) (splayers s) (smpc s) (sscript s) (strace s).
+Definition set_started s v := mkS (swait s) (sfinished s) (shlock s) (smlock s) (sthreads s) v (sterminated s) (splayers s) (smpc s) (sscript s) (strace s).
+Definition set_terminated s v := mkS (swait s) (sfinished s) (shlock s) (smlock s) (sthreads s) (sstarted s) v (splayers s) (smpc s) (sscript s) (strace s).
+Definition set_players s v := mkS (swait s) (sfinished s) (shlock s) (smlock s) (sthreads s) (sstarted s) (sterminated s) v (smpc s) (sscript s) (strace s).
+Definition set_mpc s v := mkS (swait s) (sfinished s) (shlock s) (smlock s) (sthreads s) (sstarted s) (sterminated s) (splayers s) v (sscript s) (strace s).
+Definition set_script s v := mkS (swait s) (sfinished s) (shlock s) (smlock s) (sthreads s) (sstarted s) (sterminated s) (splayers s) (smpc s) v (strace s).
+Definition emit s e := mkS (swait s) (sfinished s) (shlock s) (smlock s) (sthreads s) (sstarted s) (sterminated s) (splayers s) (smpc s) (sscript s) (e :: strace s).
 
 Definition p_set_pc p v := mkP v (paudio p) (prem p) (pwritten p) (ptlock p) (pgo p) (phalting p) (popen p).
 Definition p_set_tlock p v := mkP (ppc_ p) (paudio p) (prem p) (pwritten p) v (pgo p) (phalting p) (popen p).
@@ -189,7 +196,7 @@ Definition close_flags (s : state) : list (bool * bool) :=
   map (fun p => (p_alive p, phalting p)) (splayers s).
 
 Definition init (wait : bool) (script : list cmd) : state :=
-  next_cmd (mkS wait false None None [] 0 [] MDone script []).
+  next_cmd (mkS wait false None None [] [] 0 [] MDone script []).
 
 (* ---- transitions of the main thread (tid 0) *)
 Definition acquire_t (s : state) (t : nat) (k : state -> state) : option state :=
@@ -216,18 +223,38 @@ Definition step_main (s : state) : option state :=
   | MPlayGoSet p => Some (set_mpc (upd_player s p (fun q => p_set_go q true)) (MPlayHaltInit p))
   | MPlayHaltInit p => Some (set_mpc (upd_player s p (fun q => p_set_halting q false)) (MPlayOpen p))
   | MPlayOpen p => Some (set_mpc (emit (upd_player s p (fun q => p_set_open q true)) (EOpen p)) (MPlayAppend p))
-  | MPlayAppend p => Some (set_mpc (set_threads s (sthreads s ++ [p])) (MPlayStart p))
+  | MPlayAppend p =>
+      let s1 := set_threads s (sthreads s ++ [p]) in
+      Some (match sstarted s1 with
+            | [] => set_mpc (set_started s1 [p]) (MPlayStart p)
+            | _ => set_mpc s1 (MPlayPrune p (sstarted s1) [])
+            end)
+  | MPlayPrune p todo kept =>
+      match todo with
+      | [] => None    (* never constructed *)
+      | th :: rest =>
+          match get_player s th with
+          | None => None
+          | Some q =>
+              let kept' := if p_alive q then kept ++ [th] else kept in
+              Some (match rest with
+                    | [] => set_mpc (set_started s (kept' ++ [p])) (MPlayStart p)
+                    | _ => set_mpc s (MPlayPrune p rest kept')
+                    end)
+          end
+      end
   | MPlayStart p => Some (set_mpc (upd_player s p (fun q => p_set_pc q (loop_pc q))) MPlayRel)
   | MPlayRel => Some (next_cmd (set_mlock s None))
   | MCtlAcq k t =>
       acquire_t s t (fun s1 => set_mpc s1 match k with
                                           | KPause => MPauseClear t
-                                          | KResume => MResumeSet t
+                                          | KResume => MResumeSet false t
                                           | KStop => MStopHalt false t
+                                          | KCResume => MResumeSet true t
                                           | KCStop => MStopHalt true t
                                           end)
   | MPauseClear t => Some (set_mpc (upd_player s t (fun q => p_set_go q false)) (MCtlRel false t))
-  | MResumeSet t => Some (set_mpc (upd_player s t (fun q => p_set_go q true)) (MCtlRel false t))
+  | MResumeSet c t => Some (set_mpc (upd_player s t (fun q => p_set_go q true)) (MCtlRel c t))
   | MStopHalt c t => Some (set_mpc (upd_player s t (fun q => p_set_halting q true)) (MStopSet c t))
   | MStopSet c t => Some (set_mpc (upd_player s t (fun q => p_set_go q true)) (MCtlRel c t))
   | MCtlRel c t =>
@@ -252,13 +279,26 @@ Definition step_main (s : state) : option state :=
       | [] => Some (set_mpc s MCloseBreakRel)
       | t :: _ => Some (set_mpc s (MCloseLoopRel t))
       end
-  | MCloseBreakRel => Some (set_mpc (set_mlock s None) MCloseAssert)
+  | MCloseBreakRel =>
+      Some (set_mpc (set_mlock s None) match sstarted s with [] => MCloseAssert | l => MCloseJoinAll l end)
   | MCloseLoopRel t =>
-      Some (set_mpc (set_mlock s None) (if swait s then MCloseJoin t else MCtlAcq KCStop t))
+      Some (set_mpc (set_mlock s None) (MCtlAcq (if swait s then KCResume else KCStop) t))
   | MCloseJoin t =>
       match get_player s t with
       | Some p => match ppc_ p with PDone => Some (set_mpc s MCloseLoopAcq) | _ => None end
       | None => None
+      end
+  | MCloseJoinAll todo =>
+      match todo with
+      | [] => None    (* never constructed *)
+      | th :: rest =>
+          match get_player s th with
+          | Some p => match ppc_ p with
+                      | PDone => Some (set_mpc s match rest with [] => MCloseAssert | _ => MCloseJoinAll rest end)
+                      | _ => None
+                      end
+          | None => None
+          end
       end
   | MCloseAssert =>
       Some (set_mpc s (if existsb popen (splayers s) then MCloseRelHFail else MCloseTerm))
